@@ -201,7 +201,7 @@ fn fb_write_into<T: RtcpPacket>(
 
     end += fci.write_into_unchecked(&mut buf[idx..]);
 
-    end += writer::write_padding_unchecked(padding, &mut buf[idx..]);
+    end += writer::write_padding_unchecked(padding, &mut buf[end..]);
 
     end
 }
